@@ -42,7 +42,9 @@ def find_span_binsearch(degree, knot_vector, num_ctrlpts, knot, **kwargs):
     # In The NURBS Book; number of knots = m + 1, number of control points = n + 1, p = degree
     # All knot vectors should follow the rule: m = p + n + 1
     n = num_ctrlpts - 1
-    if abs(knot_vector[n + 1] - knot) <= tol:
+    # The tolerance is relative to the range of the knot vector (it is the range itself for the normalized knot vectors)
+    end_tol = tol * abs(knot_vector[-1] - knot_vector[0])
+    if abs(knot_vector[n + 1] - knot) <= end_tol:
         # Skip zero-length spans at the end of the domain (unclamped knot vectors)
         while n > degree and knot_vector[n] == knot_vector[n + 1]:
             n -= 1
